@@ -3,4 +3,5 @@ NEXT Next
 CONSTANT MaxAdaptors = 2
 INVARIANT Emit
 INVARIANT FiniteNeverDiverges
+INVARIANT ProvAligned
 CHECK_DEADLOCK FALSE
